@@ -33,6 +33,7 @@ func (c *Broadcast) HoldLock(cb func(broadcast func(), getWaitCh func() <-chan s
 func (c *Broadcast) TryHoldLock(cb func(broadcast func(), getWaitCh func() <-chan struct{})) bool {
 	verifhook.Lock(c)
 	if !c.mtx.TryLock() {
+		verifhook.Unlocked(c)
 		return false
 	}
 	defer verifhook.Unlocked(c)
@@ -62,6 +63,7 @@ func (c *Broadcast) HoldLockMaybeAsync(cb func(broadcast func(), getWaitCh func(
 		holdBroadcastLock(false)
 	} else {
 		// slow path: use separate goroutine
+		verifhook.Unlocked(c)
 		go holdBroadcastLock(true)
 	}
 }
